@@ -59,10 +59,38 @@ def streams(tier, rng):
         if step * 10**12 // f > 0:
             prec.append(f"{f} {step}")
 
+    # OS arm: two instants `earlier later` nanoseconds after a common base; spans straddling whole seconds,
+    # multi-second spans with zero/non-zero sub-second parts, reversed pairs (= 0)
+    osd = []
+    NS = 10**9
+    spans = [0, 1, 999, 1000, NS - 1, NS, NS + 1, 2 * NS - 1, 2 * NS, 2 * NS + 500_000_000, 59 * NS + 999_999_999, 60 * NS,
+             3600 * NS + 1, 86400 * NS, 2**32 * NS + 7, 2**40 * NS + 123_456_789]
+    for a in (0, 1, 999_999_999, NS, 5 * NS + 250_000_000, 2**33 * NS + 3):
+        for sp in spans:
+            osd.append(f"{a} {a + sp}")
+            if sp:
+                osd.append(f"{a + sp} {a}")
+    while len(osd) < (n // 4):
+        a = rng.getrandbits(rng.randrange(1, 70))
+        k = rng.random()
+        if k < 0.4:
+            sp = rng.randrange(1, 100) * NS + rng.choice([0, 1, rng.randrange(NS)])
+        elif k < 0.7:
+            sp = rng.getrandbits(rng.randrange(1, 72))
+        else:
+            sp = rng.randrange(NS)
+        osd.append(f"{a} {a + sp}" if rng.random() < 0.9 else f"{a + sp} {a}")
+
+    def nt_osd(c, m):
+        return m.startswith("ok ") and m != "ok 0" and int(m[3:]) >= 10**12
+
     def nt_tsc(c, m):
         return m.startswith("ok ") and m != "ok 0"
 
     return [
+        Stream("os-conversion-dispatcher", "osd", osd, nontrivial=nt_osd),
+        Stream("os-conversion-raw-sample", "oss", osd[: len(osd) // 2], nontrivial=nt_osd),
+        Stream("os-conversion-dispatcher-release", "osd", osd[: len(osd) // 2], nontrivial=nt_osd, release=True),
         Stream("tsc-conversion", "tsc", tsc, nontrivial=nt_tsc),
         Stream("duration-conversion", "dur", dur, nontrivial=lambda c, m: c != "0 0"),
         Stream("precision-uniform-clock", "prec", prec),
